@@ -44,6 +44,7 @@ fn run_inner(case: &str, args: &Value) -> Option<Outcome> {
         "c20_merge" => Some(c20::merge(args)),
         "c08_num" | "c08_num_search_maximum" | "c08_num_search_minimum" | "c08_num_search_multiple_of" => Some(c08::num(args)),
         "c08_len" => Some(c08::len(args)),
+        "c08_derive" => Some(c08::derive(args)),
         "c07_int" => Some(c07::int(args)),
         "c07_enum" => Some(c07::enum_case(args)),
         "c07_simple" => Some(c07::simple(args)),
@@ -86,6 +87,7 @@ pub fn search(case: &str, seed: u64, open: &[String]) -> Option<SearchResult> {
         "c08_num_search_minimum" => Box::new(c08::num_inputs("minimum", seed)),
         "c08_num_search_multiple_of" => Box::new(c08::num_inputs("multiple_of", seed)),
         "c08_len" => Box::new(c08::len_inputs(seed)),
+        "c08_derive" => Box::new(c08::derive_inputs(seed)),
         "c07_int" => Box::new(c07::int_inputs(seed)),
         "c07_enum" => Box::new(c07::enum_inputs(seed)),
         "c07_simple" => Box::new(c07::simple_inputs(seed)),
@@ -95,7 +97,7 @@ pub fn search(case: &str, seed: u64, open: &[String]) -> Option<SearchResult> {
         "c10_complexity" => Box::new(c10_limits::inputs(seed)),
         "c33_subtype" => Box::new(c33::inputs(seed)),
         "c33_build" => Box::new(c33::build_inputs(seed, open)),
-        "c14_pos" => Box::new(c14::pos_inputs(seed)),
+        "c14_pos" => Box::new(c14::pos_inputs(seed, open)),
         "c12_upload" => Box::new(c12::upload_inputs(seed)),
         "c04_serial" => Box::new(c04::inputs(seed, open)),
         "c02_exec" => Box::new(c02::inputs(seed, open)),
